@@ -9,6 +9,8 @@ pub mod c05;
 pub mod c06;
 pub mod c13;
 pub mod c14;
+#[cfg(feature = "net")]
+pub mod c15;
 pub mod c16;
 pub mod c20;
 
@@ -22,6 +24,8 @@ pub fn dispatch(a: &Args) -> Option<Report> {
         "C06" => c06::run(a),
         "C13" => c13::run(a),
         "C14" => c14::run(a),
+        #[cfg(feature = "net")]
+        "C15" => c15::run(a),
         "C16" => c16::run(a),
         "C20" => c20::run(a),
         _ => None,
